@@ -201,6 +201,10 @@ func textAtoms() []rawAtom {
 	add("digit-grouping", "0x1_")
 	add("digit-grouping", "1_.5")
 	add("digit-grouping", "0b_1")
+	for _, s := range []string{"1._5", "12._345", "1e_5", "1d_2", "1e+_5", "2.0d-_1", "-7._25", "1.5_", "1.5__5", "1.5_e2", "1.5e2_", "1.5e2__0", "1_e5", "1_d5",
+		"-_1", "-1__0", "0x1__0", "0b1__0", "-0x_1", "0b1_", "1.5d_", "1e5_0_", "1_._5", "2007_01-01T", "2007-0_1-01", "2007-01-01T1_0:00Z", "2007-01-01T10:00:00._5Z", "2007-01-01T10:00:00.5_0Z"} {
+		add("digit-grouping", s)
+	}
 	add("leading-zero", "01")
 	add("leading-zero", "007")
 	add("leading-zero", "-01")
@@ -308,6 +312,16 @@ func lstShells(hole *model.Value) []*model.Value {
 		lst(imp(f("name", model.ListV(hole)), f("version", model.Int64V(1)), f("max_id", model.Int64V(0)))),
 		lst(imp(f("name", model.StrV("n")), f("version", model.StructV(f("name", hole))), f("max_id", model.Int64V(0)))),
 		lst(imp(f("name", model.StrV("n")), f("version", model.Int64V(1)), f("max_id", model.ListV(hole)))),
+		// after both fields a reader has a use for
+		lst(f("imports", model.ListV()), syms(), f("name", hole)),
+		lst(syms(), f("imports", model.ListV()), f("version", model.ListV(hole))),
+		lst(f("imports", model.SymV(model.T("$ion_symbol_table"))), syms(), f("max_id", model.SexpV(hole))),
+		lst(syms(), imp(f("name", model.StrV("n")), f("version", model.Int64V(1)), f("max_id", model.Int64V(0))), f("$ion", hole), f("name", model.Int64V(1))),
+		// in scalar positions
+		lst(syms(), f("name", hole)),
+		lst(f("symbols", model.ListV(model.StrV("a"), hole))),
+		lst(imp(f("name", model.StrV("n")), f("version", model.Int64V(1)), f("max_id", model.Int64V(0)), f("$ion", hole))),
+		lst(f("imports", model.ListV(hole))),
 	}
 }
 
@@ -415,11 +429,11 @@ func runC07(c *Ctx) {
 		// (4) the same atoms inside the parts of a local symbol table that a reader has no use for
 		// (open content, non-string symbols entries, non-struct imports entries, container-valued
 		// import fields): the document is just as malformed there
-		for rep := 0; rep < 4; rep++ {
+		for rep := 0; rep < 8; rep++ {
 			hole := model.Int64V(0)
 			shells := lstShells(hole)
-			si := (i*4 + rep) % len(shells)
-			bat := batoms[(i*4+rep)/len(shells)%len(batoms)]
+			si := (i*8 + rep) % len(shells)
+			bat := batoms[(i*8+rep)/len(shells)%len(batoms)]
 			e := refbin.NewEncoder(newChoice(cs+int64(rep), 0.1), nil)
 			e.Raw = map[*model.Value][]byte{hole: bat.data}
 			e.AppendIVM()
@@ -429,7 +443,7 @@ func runC07(c *Ctx) {
 				badCheck(c, true, "in-symbol-table:"+bat.name, e.Out, true)
 				c.Feat1(fmt.Sprintf("lst-shell:%d", si))
 			}
-			tat := tatoms[(i*4+rep)/len(shells)%len(tatoms)]
+			tat := tatoms[(i*8+rep)/len(shells)%len(tatoms)]
 			p := reftext.NewPrinter(newChoice(cs+int64(rep), 0.1))
 			p.Raw = map[*model.Value]string{hole: string(tat.data)}
 			p.AppendValue(shells[si])
